@@ -169,6 +169,22 @@ def run_mem(case):
                 out.fail('mem:read-request-size', 'read request %s' % data.hex())
             if port == 4 and ch == 2 and (len(data) > 30 or len(data) < 5):
                 out.fail('mem:write-request-size', 'write request of %d bytes' % len(data))
+        # natural duplicates (answers to the library's own resends) of a write ack are byte-identical to the ack of a later
+        # write chunk at the same address of the same memory: such memories are excluded (wire ambiguity)
+        natural_dup = case['needs_resending'] and any(d and d > 0.9 for d in pol['delays'])
+        ambiguous_mems = set()
+        if natural_dup or pol['dups']:
+            for mid_ in range(len(sizes)):
+                chunks = []
+                for i in issued:
+                    if i['op'] == 'write' and i['mem'] == mid_:
+                        chunks.append(set(range(i['addr'], i['addr'] + max(1, i['len']), 25)))
+                if any(chunks[a_] & chunks[b_] for a_ in range(len(chunks)) for b_ in range(a_ + 1, len(chunks))):
+                    ambiguous_mems.add(mid_)
+        if ambiguous_mems:
+            out.feat('excluded-ambiguous-duplicate-ack')
+            issued = [i for i in issued if i['mem'] not in ambiguous_mems]
+            notes = [n for n in notes if n[1] not in ambiguous_mems]
         # ---- notifications: exactly one per accepted, non-superseded request
         groups = {}
         for i in issued:
@@ -195,6 +211,10 @@ def run_mem(case):
                     i['note'] = n
         if pool:
             out.fail('mem:extra-notification', '%s: unmatched notifications %r' % (desc, [(n[0], n[1], n[2]) for n in pool]))
+        if not pol['errors'] and not dropped:
+            bad = [n for n in notes if n[0].endswith('-fail')]
+            if bad:
+                out.fail('mem:spurious-failure:%s' % bad[0][0], '%s: no error status was injected and the link stayed up, but %r was reported' % (desc, [(n[0], n[1], n[2]) for n in bad]))
         # ---- read data
         for i in issued:
             if i['op'] == 'read' and i.get('result') == 'read-ok':
@@ -203,6 +223,8 @@ def run_mem(case):
                     out.fail('mem:read-data', '%s: read(%d,%d,%d) returned %s, device holds %s' % (desc, i['mem'], i['addr'], i['len'], i['note'][3].hex(), want.hex()))
         # ---- write effect and order
         for mid in range(len(sizes)):
+            if mid in ambiguous_mems:
+                continue
             ws = [i for i in issued if i['op'] == 'write' and i['mem'] == mid and i['accepted']]
             amb = any(i.get('ambiguous') or i.get('maybe_superseded') for i in ws)
             order = [n[2] for n in notes if n[0].startswith('write') and n[1] == mid]
@@ -239,7 +261,9 @@ def run_mem(case):
         # ---- afterwards: nothing left behind, still serving
         lock = getattr(cf.mem, '_write_requests_lock', None)
         if lock is not None and lock.locked():
-            out.fail('mem:lock-left-held', '%s: write request lock still held at quiescence' % desc)
+            owner = lock.owner
+            if owner is not None and (owner.state == 'DONE' or (owner.state == 'BLOCKED' and owner.wake_time is None)):
+                out.fail('mem:lock-left-held', '%s: write request lock still held by %r at quiescence' % (desc, owner))
         try:
             env.world.reply_filter = None
             net.fault = None
